@@ -1,4 +1,5 @@
 import Generated.CoreScanner
+import Proofs.PyNorm
 import Model.Scan
 
 set_option linter.unusedSimpArgs false
@@ -48,8 +49,7 @@ theorem in_these (line : Nat) (xs : List (Option Nat)) :
   simp only [Py.in_, Py.strict2, any_these]
 
 macro "sc_norm" : tactic => `(tactic|
-  simp [optNat, Py.letv, Py.ite_, Py.eq, Py.is_, Py.strict2, Py.eqb, Py.isb, Py.num?, Py.truthy, Py.cond,
-    Py.and_, Py.isnot, Py.ret, theseV, in_these, Py.lt, Py.le, Py.gt, Py.ge, Py.cmp, Int.ofNat_le, Int.ofNat_lt, Int.natCast_inj, *])
+  simp [optNat, py_norm, theseV, in_these, Int.ofNat_le, Int.ofNat_lt, Int.natCast_inj, *])
 
 theorem includes_bridge (s : St) (endLine : Option Nat) (line : Nat) (effs : List Py.Eff) :
     Generated.Scanner.Scanner.includes (scanEnv s endLine) (.int line) (.int (-1)) (.int (-1)) .none .none effs
@@ -115,12 +115,10 @@ theorem len_these' (ys : List Nat) :
   simp [Py.len]
 
 macro "sl_norm" : tactic => `(tactic|
-  simp [optNat, Py.letv, Py.ite_, Py.eq, Py.is_, Py.strict2, Py.eqb, Py.isb, Py.num?, Py.truthy, Py.cond, Py.not_,
-    Py.and_, Py.isnot, Py.ret, Py.lt, Py.le, Py.gt, Py.ge, Py.cmp, Int.ofNat_le, Int.ofNat_lt, Int.natCast_inj, isLast, Py.len, Py.max, maxThese, *])
+  simp [optNat, py_norm, Int.ofNat_le, Int.ofNat_lt, Int.natCast_inj, isLast, Py.len, Py.max, maxThese, *])
 
 macro "sl_norm2" : tactic => `(tactic|
-  simp [optNat, Py.letv, Py.ite_, Py.eq, Py.is_, Py.strict2, Py.eqb, Py.isb, Py.num?, Py.truthy, Py.cond, Py.not_,
-    Py.and_, Py.isnot, Py.ret, Py.lt, Py.le, Py.gt, Py.ge, Py.cmp, Int.ofNat_le, Int.ofNat_lt, Int.natCast_inj, isLast, *])
+  simp [optNat, py_norm, Int.ofNat_le, Int.ofNat_lt, Int.natCast_inj, isLast, *])
 
 set_option maxHeartbeats 1000000 in
 /-- `is_last` for a scanner whose `these` holds no None (every scan part of class K) -/
